@@ -4,11 +4,22 @@ import "encoding/binary"
 
 var randCtr uint32
 
-func resetRand() { randCtr = 0x1000 }
+var forcedRand []uint32
+
+func resetRand() { randCtr = 0x1000; forcedRand = nil }
+
+// ForceRand makes the next draws of the instrumented code's random sources return vals (an environment answer the
+// harness decides: two draws that collide, a draw of zero), after which the counter continues.
+func ForceRand(vals ...uint32) { forcedRand = append(forcedRand, vals...) }
 
 // NextRand returns the next value of the deterministic counter that replaces every random source
 // of the instrumented code (reference numbers, chat ids, transaction ids).
 func NextRand() uint32 {
+	if len(forcedRand) > 0 {
+		v := forcedRand[0]
+		forcedRand = forcedRand[1:]
+		return v
+	}
 	randCtr++
 	return randCtr
 }
